@@ -191,7 +191,8 @@ fn done<'a>(out: &mut Out, what: &str, cfg: &RunCfg, r: &'a ChildResult) -> Opti
 
 fn timing_part(out: &mut Out, thorough: bool, rng: &mut Rng) {
     let wd = std::time::Duration::from_secs(60);
-    // (a) an expired timeout is observed within timeout + 1 s (poll period) + 2 s, for every thread count
+    // (a) an expired timeout is observed within timeout + 1 s (poll period) + 6 s of slack for a loaded machine, for every
+    //     thread count (the defects this guards against miss it by an order of magnitude or never return: watchdog)
     let mut cfgs = vec![];
     for strat in ["bfs", "dfs", "sim", "ondemand"] {
         for &t in &[1usize, 2, 4] {
@@ -214,7 +215,7 @@ fn timing_part(out: &mut Out, thorough: bool, rng: &mut Rng) {
         out.stat(&format!("timeout-run-{}-threads{}", c.strategy, c.threads));
         out.distinct(&describe(c));
         if let Some(o) = done(out, "expired timeout", c, r) {
-            let bound = c.timeout_ms.unwrap() + 1000 + 2000;
+            let bound = c.timeout_ms.unwrap() + 1000 + 6000;
             if (c.strategy == "bfs" && c.threads == 4) || (c.strategy == "sim" && c.threads == 1) || (c.strategy == "dfs" && c.threads == 2) {
                 out.sample(&format!("timeout {} ms, {} threads={}: join after {} ms ({} states)", c.timeout_ms.unwrap(), c.strategy, c.threads, o.wall_ms, o.state_count));
             }
@@ -262,7 +263,7 @@ fn timing_part(out: &mut Out, thorough: bool, rng: &mut Rng) {
             if a.unique != a.closure {
                 out.v("run-mismatch", &format!("unique {} != closure {}: {}", a.unique, a.closure, describe(c0)));
             }
-            if b.wall_ms > 5 * a.wall_ms + 2000 {
+            if b.wall_ms > 8 * a.wall_ms + 5000 {
                 out.v("unexpired-timeout-slows-down", &format!("{} ms with vs {} ms without: {}", b.wall_ms, a.wall_ms, describe(c1)));
             }
         }
